@@ -73,7 +73,43 @@ func genDollar(r *vh.Rand) (string, string) {
 	return closing + "v" + closing, "v"
 }
 
-var identFrags = []string{"a", "b", "x y", "\"\"", "'", "\\", "--", "/*", "*/", "$$", "é", "__IDENT_0__", "__STR_1__", "1", ";", "e"}
+var identFrags = []string{"a", "b", "Host", "cpu", "É", "ñ", "x y", "\"\"", "'", "\\", "--", "/*", "*/", "$$", "é", "__IDENT_0__", "__STR_1__", "1", ";", "e"}
+
+// swapCase flips ASCII letter case and é/É, ñ/Ñ (non-ASCII case variants).
+func swapCase(t string, r *vh.Rand) string {
+	t = strings.NewReplacer("é", "\x00", "É", "é", "ñ", "\x01", "Ñ", "ñ").Replace(t)
+	t = strings.NewReplacer("\x00", "É", "\x01", "Ñ").Replace(t)
+	b := []byte(t)
+	for i, c := range b {
+		if r.Chance(70) {
+			switch {
+			case c >= 'a' && c <= 'z':
+				b[i] = c - 32
+			case c >= 'A' && c <= 'Z':
+				b[i] = c + 32
+			}
+		}
+	}
+	return string(b)
+}
+
+// genQIdentPool: like genQIdent, but often repeats an identifier already used in this string —
+// identical, or differing only in (ASCII / non-ASCII) letter case. The masker shares one placeholder
+// between IDENTICAL quoted identifiers only.
+func genQIdentPool(r *vh.Rand, pool *[]string) (string, string) {
+	if len(*pool) > 0 && r.Chance(45) {
+		t := (*pool)[r.Intn(len(*pool))]
+		if r.Chance(60) {
+			t = swapCase(t, r)
+		}
+		*pool = append(*pool, t)
+		body := t[1 : len(t)-1]
+		return t, strings.ReplaceAll(body, "\"\"", "\"")
+	}
+	t, name := genQIdent(r)
+	*pool = append(*pool, t)
+	return t, name
+}
 
 func genQIdent(r *vh.Rand) (string, string) {
 	var sb strings.Builder
@@ -157,6 +193,7 @@ func genWS(r *vh.Rand, toks *[]gtok, last bool) {
 func genSelect(r *vh.Rand) ([]gtok, []col) {
 	var toks []gtok
 	var cols []col
+	var pool []string
 	toks = append(toks, gtok{'r', pickS(r, []string{"SELECT", "select", "Select"})})
 	genWS(r, &toks, false)
 	n := 1 + r.Intn(4)
@@ -194,7 +231,7 @@ func genSelect(r *vh.Rand) ([]gtok, []col) {
 		toks = append(toks, gtok{'r', pickS(r, []string{"AS", "as"})})
 		genWS(r, &toks, false)
 		if r.Chance(55) {
-			t, name := genQIdent(r)
+			t, name := genQIdentPool(r, &pool)
 			toks = append(toks, gtok{'i', t})
 			cols = append(cols, col{name, val})
 		} else {
@@ -244,6 +281,7 @@ func truthStr(toks []gtok) string {
 // ---- glued tokens: the same token generators without separators (truth from SqlLex only)
 func genGlued(r *vh.Rand) []byte {
 	var b bytes.Buffer
+	var pool []string
 	n := 1 + r.Intn(6)
 	for i := 0; i < n; i++ {
 		switch r.Intn(12) {
@@ -257,8 +295,13 @@ func genGlued(r *vh.Rand) []byte {
 			t, _ := genDollar(r)
 			b.WriteString(t)
 		case 5:
-			t, _ := genQIdent(r)
+			t, _ := genQIdentPool(r, &pool)
 			b.WriteString(t)
+			if r.Chance(50) {
+				b.WriteByte(' ')
+				t, _ = genQIdentPool(r, &pool)
+				b.WriteString(t)
+			}
 		case 6:
 			b.WriteString(genLine(r))
 			b.WriteString(pickS(r, []string{"\n", "\r", "", "\r\n"}))
@@ -277,7 +320,7 @@ func genGlued(r *vh.Rand) []byte {
 
 var soupFrags = []string{"'", "'", "\"", "\"", "''", "\"\"", "\\", "\\", "\\'", "\\\"", "$", "$$", "$t$", "$é$", "$1", "E'", "e'", "E", "e", "a", "b", "x", "1", "9", "_",
 	"__STR_0__", "__STR_1__", "__IDENT_0__", "__IDENT_1__", "__STR_", "STR_0__", "IDENT_0__", "STR_", "__", "--", "/*", "*/", "*", "/", "-", "\n", "\r", " ", "\t", "é", "\xff",
-	"SELECT", "FROM", ";", "(", ")", ",", "N'", "x'", "U&'"}
+	"SELECT", "FROM", ";", "(", ")", ",", "N'", "x'", "U&'", "\"Host\"", "\"host\"", "\"HOST\"", "\"é\"", "\"É\""}
 
 func genSoup(r *vh.Rand) []byte {
 	var b bytes.Buffer
